@@ -1,4 +1,177 @@
+(* C01 — Object encoding declares its exact size (and round-trips: trees, see below).
+   Only statements here; every proof is [exact <lemma>].
+   Model: Model.v (+ Tables.v regenerated from gix-date/src/time/write.rs on every run).
+   [len b] is the number of bytes of [b] as N.  [i64 z] : -2^63 <= z < 2^63.
+   [sig_i64 s]: the signature's seconds are an i64.  [len20 b]: b has 20 bytes (an ObjectId).
+   [commit_wf c]: tree and parents are ObjectIds, both timestamps are i64 (type invariants of
+   gix_object::Commit, nothing else).  [tag_wf g]: the tagger's timestamp, if any, is an i64.
+   [obj_wf o]: the same invariants for an Object. *)
+From Coq Require Import ZArith NArith List.
 From GixV.Base Require Import Bytes BytesFacts Outcome.
-From GixV.C01 Require Import Tables Model.
-Example placeholder : blob_size [] = 0%N.
-Proof. reflexivity. Qed.
+From GixV.C01 Require Import Tables Model Spec ProofsDec ProofsLadder ProofsTime ProofsObj ProofsHeader ProofsTree.
+Local Open Scope N_scope.
+
+(* ---- Time ---------------------------------------------------------------------------------- *)
+
+(* the ladder of Time::size() equals the number of characters itoa writes, for EVERY i64 *)
+Theorem time_ladder_counts_digits : forall s, i64 s ->
+  ladder_eval s time_ladder time_ladder_else = len (Z_to_dec s).
+Proof. exact ladder_exact. Qed.
+
+(* Time::size() is the number of bytes Time::write_to() writes: all i64 seconds, all offsets, both signs *)
+Theorem time_size_exact : forall t out, i64 (t_seconds t) -> time_write t = Ok out -> time_size t = len out.
+Proof. exact L_time_size_exact. Qed.
+
+(* write_to accepts exactly the offsets below 100 hours (whole minutes or not), never panics *)
+Theorem time_write_domain : forall t,
+  ((exists out, time_write t = Ok out) <-> (Z.abs (t_offset t) < 360000)%Z) /\
+  time_write t <> Panic /\ time_write t <> OutOfFuel.
+Proof. intros t. split; [exact (L_time_write_domain t)|exact (L_time_write_total t)]. Qed.
+
+(* what is written is "<seconds> <sign>HHMM", HH = |offset| / 3600, MM = |offset| mod 3600 / 60
+   (seconds of the offset are dropped), the sign character comes from the `sign` field alone *)
+Theorem time_write_format : forall t out, time_write t = Ok out ->
+  let a := Z.abs_N (t_offset t) in
+  out = Z_to_dec (t_seconds t) ++ bs " " ++ (if t_minus t then bs "-" else bs "+")
+        ++ two_digits (a / 3600) ++ two_digits (a mod 3600 / 60).
+Proof. exact L_time_write_format. Qed.
+
+(* ---- Signature ----------------------------------------------------------------------------- *)
+
+Theorem sig_size_exact : forall s out, sig_i64 s -> sig_write s = Ok out -> sig_size s = len out.
+Proof. exact L_sig_size_exact. Qed.
+
+Theorem sig_write_domain : forall s,
+  (exists out, sig_write s = Ok out) <->
+  (existsb illegal_in_token (s_name s) = false /\ existsb illegal_in_token (s_email s) = false /\
+   (Z.abs (t_offset (s_time s)) < 360000)%Z).
+Proof. exact L_sig_write_domain. Qed.
+
+(* ---- Tree / TreeRef ------------------------------------------------------------------------ *)
+
+(* with or without the debug assertion *)
+Theorem tree_size_exact : forall dbg l out, tree_write dbg l = Ok out -> tree_size l = len out.
+Proof. exact L_tree_size_exact. Qed.
+
+(* decode (write l) = l for every tree with NUL-free names, valid modes and 20-byte ids; the
+   decoder terminates within its fuel and never panics on those bytes *)
+Theorem tree_roundtrip : forall dbg l out, tree_rt_wf l -> tree_write dbg l = Ok out -> tree_decode out = Ok l.
+Proof. exact L_tree_roundtrip. Qed.
+
+(* ... and such trees are accepted for writing when canonically sorted (release: always) *)
+Theorem tree_write_accepts : forall dbg l, tree_rt_wf l -> (dbg = false \/ sorted_adjacent l = true) ->
+  exists out, tree_write dbg l = Ok out.
+Proof. exact L_tree_write_accepts. Qed.
+
+(* the tree decoder never panics and never runs out of fuel, on ANY input *)
+Theorem tree_decode_total : forall i, tree_decode i <> Panic /\ tree_decode i <> OutOfFuel.
+Proof. exact L_tree_decode_total. Qed.
+
+(* ---- Commit / CommitRef -------------------------------------------------------------------- *)
+
+Theorem commit_size_exact : forall c out, commit_wf c -> commit_write c = Ok out -> commit_size c = len out.
+Proof. exact L_commit_size_exact. Qed.
+
+(* CommitRef: whenever write_to succeeds, size() does not panic and is exact *)
+Theorem commitref_size_exact : forall c out, sig_i64 (c_author c) -> sig_i64 (c_committer c) ->
+  commitref_write c = Ok out -> commitref_size c = Ok (len out).
+Proof. exact L_commitref_size_exact. Qed.
+
+(* ---- Tag / TagRef -------------------------------------------------------------------------- *)
+
+Theorem tag_size_exact : forall g out, len20 (g_target g) -> tag_wf g -> tag_write g = Ok out ->
+  tag_size g = len out.
+Proof. exact L_tag_size_exact. Qed.
+
+(* TagRef writes its target verbatim while size() re-parses it: size() returns exactly for 40 hex
+   digits, and whenever it returns it is exact *)
+Theorem tagref_size_exact : forall g out n, tag_wf g -> tagref_write g = Ok out -> tagref_size g = Ok n ->
+  n = len out.
+Proof. exact L_tagref_size_exact. Qed.
+
+Theorem tagref_size_defined : forall g,
+  (exists n, tagref_size g = Ok n) <-> (length (g_target g) = 40%nat /\ forallb is_hex (g_target g) = true).
+Proof. exact L_tagref_size_defined. Qed.
+
+(* ---- Blob, Object, loose header, ids -------------------------------------------------------- *)
+
+Theorem blob_size_exact : forall d out, blob_write d = Ok out -> blob_size d = len out /\ out = d.
+Proof. exact L_blob_size_exact. Qed.
+
+Theorem object_size_exact : forall dbg o out, obj_wf o -> obj_write dbg o = Ok out -> obj_size o = len out.
+Proof. exact L_obj_size_exact. Qed.
+
+(* git's reader of "<kind> <size>\0<body>" gets back kind, size and body from loose_header *)
+Theorem loose_header_parses : forall k n body,
+  parse_loose_header (loose_header k n ++ body) = Some (kind_bytes k, n, body).
+Proof. exact L_loose_header_parses. Qed.
+
+(* what the loose store streams for an object (WriteTo::loose_header() then write_to()) declares
+   exactly the number of body bytes, so git accepts it *)
+Theorem loose_object_declares_body : forall dbg o out, obj_wf o -> obj_write dbg o = Ok out ->
+  parse_loose_header (obj_loose_header o ++ out) = Some (kind_bytes (obj_kind o), len out, out) /\
+  git_accepts_loose (obj_loose_header o ++ out) = true.
+Proof. exact L_loose_object_declares_body. Qed.
+
+(* compute_hash is git's id formula, for any digest function H (SHA-1 is a parameter) *)
+Theorem compute_hash_is_git_formula : forall (H : bytes -> bytes) k data,
+  compute_hash H k data = git_object_id H (kind_bytes k) data.
+Proof. exact L_compute_hash_is_git. Qed.
+
+(* the id computed while writing an object to the loose store is git's id of the written bytes *)
+Theorem loose_store_id_is_git : forall (H : bytes -> bytes) dbg o out, obj_wf o -> obj_write dbg o = Ok out ->
+  loose_store_id H (obj_kind o) (obj_size o) out = git_object_id H (kind_bytes (obj_kind o)) out /\
+  loose_store_id H (obj_kind o) (obj_size o) out = compute_hash H (obj_kind o) out.
+Proof. exact L_loose_store_id_is_git. Qed.
+
+(* ---- non-vacuity ---------------------------------------------------------------------------- *)
+
+Definition ex_sig (s : Z) : sig := mkSig (bs "A U Thor") (bs "a@example.com") (mkTime s (-19800) true).
+Definition ex_commit : commit :=
+  mkCommit (repeat x11 20) [repeat x22 20; repeat x33 20] (ex_sig (-10)) (ex_sig (-9223372036854775808))
+           (Some (bs "ISO-8859-1")) [(bs "gpgsig", bs "a" ++ [x0a] ++ bs "b" ++ [x0a])] (bs "msg").
+Definition ex_tag : tag :=
+  mkTag (repeat x44 20) KCommit (bs "v1.0") (Some (ex_sig (-1000000000000000000))) (bs "m") None.
+Definition ex_tree : list entry :=
+  [mkEntry 33188 (bs "a-b") (repeat x55 20); mkEntry 16384 (bs "a") (repeat x66 20)].
+
+(* the former defect's witness: seconds = -10 *)
+Example time_example : exists out, time_write (mkTime (-10) 0 false) = Ok out /\ out = bs "-10 +0000" /\
+  time_size (mkTime (-10) 0 false) = 9 /\ i64 (-10).
+Proof. eexists. split; [reflexivity|]. split; [reflexivity|]. split; [reflexivity|]. apply i64_dec. reflexivity. Qed.
+
+Example commit_example : exists out, commit_write ex_commit = Ok out /\ commit_wf ex_commit /\
+  commit_size ex_commit = len out /\ obj_wf (OCommit ex_commit).
+Proof.
+  assert (W : commit_wf ex_commit).
+  { unfold commit_wf, ex_commit, len20, sig_i64. cbn [c_tree c_parents c_author c_committer ex_sig s_time t_seconds].
+    split; [reflexivity|]. split; [repeat constructor|]. split; apply i64_dec; reflexivity. }
+  eexists. split; [vm_compute; reflexivity|]. split; [exact W|]. split; [vm_compute; reflexivity|exact W].
+Qed.
+
+Example tag_example : exists out, tag_write ex_tag = Ok out /\ len20 (g_target ex_tag) /\ tag_wf ex_tag /\
+  tag_size ex_tag = len out.
+Proof.
+  eexists. split; [vm_compute; reflexivity|]. split; [reflexivity|]. split.
+  - unfold tag_wf, ex_tag, sig_i64. cbn [g_tagger ex_sig s_time t_seconds]. apply i64_dec. reflexivity.
+  - vm_compute. reflexivity.
+Qed.
+
+Example tree_example : exists out, tree_write true ex_tree = Ok out /\ tree_rt_wf ex_tree /\
+  sorted_adjacent ex_tree = true /\ tree_decode out = Ok ex_tree.
+Proof.
+  eexists. split; [vm_compute; reflexivity|].
+  split; [unfold tree_rt_wf, ex_tree, entry_rt_wf; repeat constructor|].
+  split; vm_compute; reflexivity.
+Qed.
+
+Example tagref_example :
+  let g := mkTag (bs "4444444444444444444444444444444444444444") KTree (bs "v1") None [] None in
+  exists out, tagref_write g = Ok out /\ tagref_size g = Ok (len out) /\ tag_wf g.
+Proof. eexists. split; [vm_compute; reflexivity|]. split; [vm_compute; reflexivity|exact I]. Qed.
+
+Example commitref_example :
+  let c := mkCommit (bs "1111111111111111111111111111111111111111") [bs "ABCDEF1111111111111111111111111111111111"]
+                    (ex_sig 0) (ex_sig 99) None [] [] in
+  exists out, commitref_write c = Ok out /\ commitref_size c = Ok (len out).
+Proof. eexists. split; vm_compute; reflexivity. Qed.
